@@ -315,11 +315,14 @@ func (c *Cache) Stop() {
 
 func (c *Cache) startWorker(ch chan *EventSubscription) {
 	for eventSub := range ch {
+		verifPoint("cache.pickup")
 		eventSub.processQueue()
 	}
 }
 
 func (c *Cache) mqUnsubscribe(v interface{}) {
+	defer verifEvict(c, -1)
+	verifPoint("cache.evict")
 	eventSub := v.(*EventSubscription)
 	c.mu.Lock()
 	defer c.mu.Unlock()
@@ -328,6 +331,7 @@ func (c *Cache) mqUnsubscribe(v interface{}) {
 		return
 	}
 
+	verifCount("cache.evicted")
 	delete(c.eventSubs, eventSub.ResourceName)
 
 	// Metrics
